@@ -316,19 +316,20 @@ func c20GenBlindRot(c *Ctx) {
 				}
 			}
 			c.Probe("testpoly_table", fmt.Sprintf("n=%d fn=%s", N, fn.name), "testpoly-layout", detail)
-			// probe: the documented interval is the CLOSED [a, b]; the exponent N/2 (x = b) reads -F[N/2] = -f(a)
+			// probe: the documented behaviour at the right end point (doc comment after fix C20-9): the exponent N/2
+			// (x = b) reads -F[N/2] = -g(a)
 			{
 				col := make([]uint64, len(Q))
 				for k := range Q {
 					col[k] = rows[k][N/2]
 				}
 				got := new(big.Int).Neg(c20CRTCentered(col, Q))
-				want := new(big.Float).Mul(big.NewFloat(scale), big.NewFloat(fn.f(fn.b)))
+				want := new(big.Float).Mul(big.NewFloat(scale), big.NewFloat(-fn.f(fn.a)))
 				wi, _ := want.Int(nil)
 				d := new(big.Int).Sub(got, wi)
 				d2 := ""
 				if d.CmpAbs(big.NewInt(1)) > 0 {
-					d2 = fmt.Sprintf("look-up at x=b returns %s, scale*f(b)=%s (fn=%s)", got, wi, fn.name)
+					d2 = fmt.Sprintf("look-up at x=b returns %s, documented -scale*g(a)=%s (fn=%s)", got, wi, fn.name)
 				}
 				c.Probe("testpoly_endpoint", fmt.Sprintf("n=%d fn=%s", N, fn.name), "testpoly-right-endpoint", d2)
 			}
@@ -359,7 +360,7 @@ func c20GenBlindRot(c *Ctx) {
 				ks[i] = grid[(start+i)%len(grid)]
 			}
 			for fi, t := range tps {
-				if !c.Thorough() && (call+fi)%2 == 1 && ci != 0 {
+				if !c.Thorough() && (call+fi+ci)%2 == 1 && ci != 0 {
 					continue
 				}
 				// LWE sample: phase_i = k_i * Q/(2N) + e_i
@@ -527,7 +528,7 @@ func c20BREvaluate(c *Ctx, psBR, psL *c20PS, evalBR *blindrot.Evaluator, BRK bli
 			}
 		}
 		for j := 0; j < NL && detail == ""; j++ {
-			if seenMul[j] != 1 {
+			if seenMul[j] > 1 {
 				detail = fmt.Sprintf("slot %d: key %d used %d times", si, j, seenMul[j])
 			}
 		}
@@ -624,8 +625,8 @@ func c20BREvaluate(c *Ctx, psBR, psL *c20PS, evalBR *blindrot.Evaluator, BRK bli
 		_ = ev
 		nOps++
 	}
-	fast := lp == -1 && lq == 0 && psBR.Q[0]>>29 == 0
 	shape := c20Shape(BRK.BlindRotationKeys[0])
+	fast := lp == -1 && lq == 0 && c20Acc32Fits(psBR.Q[0], shape[0])
 	dsum, recomb := psBR.digitSum(lq, lp, w, shape, fast)
 	bep := psBR.extProdNoiseBound(lq, lp, dsum, c20L1(sBR))
 	Qb := c20ProdBig(psBR.Q)
@@ -680,8 +681,6 @@ func c20BREvaluate(c *Ctx, psBR, psL *c20PS, evalBR *blindrot.Evaluator, BRK bli
 		noise := c20DistModQ(phase, want, Qb)
 		key := "blindrot-exponent"
 		switch {
-		case lp == -1:
-			key = "rgsw-enc-nop-montgomery"
 		case fast && w == 0:
 			key = "extprod32-zero-mask"
 		case !recomb:
@@ -739,14 +738,10 @@ func c20BREvaluate(c *Ctx, psBR, psL *c20PS, evalBR *blindrot.Evaluator, BRK bli
 		}
 		key2 := "blindrot-lookup"
 		switch {
-		case lp == -1:
-			key2 = "rgsw-enc-nop-montgomery"
 		case fast && w == 0:
 			key2 = "extprod32-zero-mask"
 		case !recomb:
 			key2 = "base2-digit-count"
-		case kIdeal == N/2 && !fn.odd:
-			key2 = "testpoly-right-endpoint"
 		}
 		d2 := ""
 		if new(big.Int).Lsh(bound, 2).Cmp(Qb) >= 0 && key2 == "blindrot-lookup" {
